@@ -62,6 +62,21 @@ def read_log(path):
     return ev
 
 
+def log_marks(path):
+    """'#NAME<tab>value' lines of a shim log (e.g. #MAXOPEN: the largest number of descriptors that were open at
+    the same time on paths below the roots)."""
+    out = {}
+    try:
+        with open(path, "r", errors="surrogateescape") as f:
+            for line in f:
+                if line.startswith("#") and "\t" in line:
+                    k, v = line[1:].rstrip("\n").split("\t", 1)
+                    out[k] = v
+    except FileNotFoundError:
+        pass
+    return out
+
+
 def shim_env(scratch, roots, classes, log, mode=None, at=None, errno=None, at2=None, errno2=None, emulate_clone=False,
              extra=None):
     e = {"LD_PRELOAD": SHIM, "FCSHIM_ROOT": ":".join(roots), "FCSHIM_CLASSES": classes, "FCSHIM_LOG": log}
@@ -91,7 +106,7 @@ def run_with_shim(scratch, args, roots, classes="m", stdin=b"", cwd=None, mode=N
     if mode != "pause":
         rc, out, err, to = C.run([C.FCLONES] + list(args), cwd=cwd or scratch.tree, env=env, stdin=stdin, timeout=timeout)
         return {"rc": rc, "out": out, "err": err.decode("utf-8", "replace"), "timeout": to, "events": read_log(log),
-                "killed": rc == -signal.SIGKILL, "paused": False}
+                "killed": rc == -signal.SIGKILL, "paused": False, "marks": log_marks(log)}
     # pause mode: the process stops itself (SIGSTOP) right before event `at`
     outf = open(os.path.join(scratch.root, "pause.out"), "wb+")
     errf = open(os.path.join(scratch.root, "pause.err"), "wb+")
